@@ -276,13 +276,17 @@ func c05gPasses(thorough bool) []c05gpass {
 	flips := []string{"d0d1", "f0f1", "d2", "d0u0"}
 	// reload scripts; R0 Re Rs Rd As Ae use confs the balancer rejects
 	upds := []string{"R-", "Rx", "Rw", "B-", "B+", "S1B+", "Gs", "RxBs", "Rs", "Re", "RsR-", "As", "R0Rw", "RdB-"}
+	nQuickCfgs, quickUpds := len(cfgs), map[string]bool{}
+	for _, u := range upds {
+		quickUpds[u] = true
+	}
 	if thorough {
 		cfgs = append(cfgs, cfg{"b", 1, "Qd", 0}, cfg{"1", 1, "Qe", 0}, cfg{"2", 1, "Qs", 0}, cfg{"1", 0, "d0d1", 0}, cfg{"b", 0, "d0d1", 0}, cfg{"1", 1, "d0d1", 0}, cfg{"2", 0, "", 2}, cfg{"1", 1, "Sr0", 0}, cfg{"2", 1, "d2", 0}, cfg{"2", 1, "d0d1d2", 0})
 		flips = []string{"d0d1", "f0f1", "d2", "d0u0", "d0", "f0s0", "2f0f0", "d0d1d2"}
 		upds = []string{"R-", "Rx", "Rw", "B-", "B+", "S1B+", "Gs", "RxBs", "Bx", "S0", "S1", "Gl", "Gr", "R-B+",
 			"Rs", "Re", "RsR-", "As", "R0Rw", "RdB-", "R0", "Rd", "Ae", "A-", "ReR-", "RsAx"}
 	}
-	var a, b, c, d, core []c05g
+	var a, b, c, c1, d, core []c05g
 	add := func(l *[]c05g, s c05g) {
 		if s.mode == "STICKY" && (strings.Contains(s.init, "S") || strings.Contains(s.upd, "S")) {
 			return // slow start is not applied in sticky mode
@@ -290,7 +294,7 @@ func c05gPasses(thorough bool) []c05gpass {
 		*l = append(*l, s)
 	}
 	for _, m := range []string{"WRR", "WLC", "STICKY"} {
-		for _, cf := range cfgs {
+		for ci, cf := range cfgs {
 			g := c05g{shape: cf.shape, mode: m, cross: cf.cross, init: cf.init, retry: [2]int{cf.retry, 0}}
 			for i, fl := range flips {
 				s := g
@@ -310,7 +314,11 @@ func c05gPasses(thorough bool) []c05gpass {
 			for _, up := range upds {
 				s := g
 				s.bal, s.upd = [2]int{1, 1}, up
-				add(&c, s)
+				if ci < nQuickCfgs && quickUpds[up] {
+					add(&c, s)
+				} else {
+					add(&c1, s) // thorough-only configurations / scripts: lower bound
+				}
 			}
 			if thorough && cf.retry == 0 && cf.shape == "2" {
 				for _, fl := range []string{"d0d1", "f0f1"} {
@@ -338,7 +346,7 @@ func c05gPasses(thorough bool) []c05gpass {
 	if !thorough {
 		return []c05gpass{{"gslb-A@1", 1, a}, {"gslb-B@1", 1, b}, {"gslb-C@1", 1, c}, {"gslb-core@2", 2, core}}
 	}
-	return []c05gpass{{"gslb-A@1", 1, a}, {"gslb-B@2", 2, b}, {"gslb-C@2", 2, c}, {"gslb-D@1", 1, d}, {"gslb-core@3", 3, core}}
+	return []c05gpass{{"gslb-A@1", 1, a}, {"gslb-B@2", 2, b}, {"gslb-C@2", 2, c}, {"gslb-C@1", 1, c1}, {"gslb-D@1", 1, d}, {"gslb-core@3", 3, core}}
 }
 
 // c05gNeutral: a reload the balancer rejected must leave balancing as it was before the reload:
